@@ -70,22 +70,22 @@ type knownFile struct {
 }
 
 type agg struct {
-	runs       int
-	steps      uint64
-	simNs      int64
-	wallUs     int64
-	evals      int
-	inconclusive int
-	probes     map[string]int
-	faults     map[string]int
-	sched      map[string]struct{}
-	states     map[string]struct{}
-	samples    []interface{}
-	viol       map[string]*RunResult // first run per violation key
-	violCount  map[string]int
+	runs           int
+	steps          uint64
+	simNs          int64
+	wallUs         int64
+	evals          int
+	inconclusive   int
+	probes         map[string]int
+	faults         map[string]int
+	sched          map[string]struct{}
+	states         map[string]struct{}
+	samples        []interface{}
+	viol           map[string]*RunResult // first run per violation key
+	violCount      map[string]int
 	abortedByPanic int
-	thirdParty  int
-	perScenario map[string]int
+	thirdParty     int
+	perScenario    map[string]int
 }
 
 type chunk struct {
@@ -477,27 +477,27 @@ func runnerMain() int {
 		}
 	}
 	cov := map[string]interface{}{
-		"evaluations":         a.evals + a.runs,
-		"distinct_nontrivial": len(a.sched),
-		"rule":                spec.Rule + " Cases are simulated runs: configuration, actor scripts and the scheduler's choice tape are all drawn from one PRNG seeded by (VERIF_SEED, scenario, run index). evaluations = runs + oracle evaluations inside them; distinct_nontrivial = number of distinct hashes of the (task role, yield point) decision sequence, i.e. distinct interleavings actually executed.",
-		"oracle":              spec.Oracle,
-		"samples":             a.samples,
-		"runs":                a.runs,
-		"runs_per_scenario":   a.perScenario,
-		"runs_per_hour":       int(float64(a.runs) / wall * 3600),
-		"scheduler_steps":     a.steps,
-		"simulated_seconds":   float64(a.simNs) / 1e9,
-		"distinct_abstract_states": len(a.states),
-		"faults_fired":        a.faults,
-		"probes":              a.probes,
-		"unreached_probes":    unreached,
-		"aborted_by_panic":    a.abortedByPanic,
-		"third_party_race_reports": a.thirdParty,
-		"inconclusive":        a.inconclusive,
-		"real_vs_stub":        realStub,
-		"toolchain":           runtime.Version(),
+		"evaluations":                            a.evals + a.runs,
+		"distinct_nontrivial":                    len(a.sched),
+		"rule":                                   spec.Rule + " Cases are simulated runs: configuration, actor scripts and the scheduler's choice tape are all drawn from one PRNG seeded by (VERIF_SEED, scenario, run index). evaluations = runs + oracle evaluations inside them; distinct_nontrivial = number of distinct hashes of the (task role, yield point) decision sequence, i.e. distinct interleavings actually executed.",
+		"oracle":                                 spec.Oracle,
+		"samples":                                a.samples,
+		"runs":                                   a.runs,
+		"runs_per_scenario":                      a.perScenario,
+		"runs_per_hour":                          int(float64(a.runs) / wall * 3600),
+		"scheduler_steps":                        a.steps,
+		"simulated_seconds":                      float64(a.simNs) / 1e9,
+		"distinct_abstract_states":               len(a.states),
+		"faults_fired":                           a.faults,
+		"probes":                                 a.probes,
+		"unreached_probes":                       unreached,
+		"aborted_by_panic":                       a.abortedByPanic,
+		"third_party_race_reports":               a.thirdParty,
+		"inconclusive":                           a.inconclusive,
+		"real_vs_stub":                           realStub,
+		"toolchain":                              runtime.Version(),
 		"lock_granularity_yield_points_inserted": os.Getenv("VERIF_AUTOYIELD_POINTS"),
-		"known_findings_reobserved": len(knownSeen),
+		"known_findings_reobserved":              len(knownSeen),
 	}
 	if len(a.samples) == 0 {
 		cov["samples"] = []interface{}{"no run completed"}
